@@ -3,7 +3,7 @@
 (* mint_from succeed only with the authorisation of the address they debit or act   *)
 (* for; the recipient, the counterparty, the owner, a stranger or nobody cannot;      *)
 (* in states with and without an allowance.                                           *)
-EXTENDS Token, Json, SequencesExt
+EXTENDS Token, Json, SequencesExt, AuthShapes
 VARIABLE st
 Auths == {{p} : p \in Accts \ {"token"}} \cup {{}}
 Acts(s) ==
@@ -19,6 +19,18 @@ Acts(s) ==
     \cup {[name |-> "MintFrom", minter |-> s.owner, to |-> "carol", amt |-> 1, auth |-> au] : au \in Auths}
     \* the declared administrator claw-back: debits an account without its authorisation, so it must not succeed
     \cup {[name |-> "Clawback", from |-> "alice", amt |-> m, auth |-> au] : m \in {0, 1}, au \in {{}, {s.owner}, {"bob"}}}
+    \* an entry that names the entry point but keeps only the arguments `keepArgs` (what require_auth_for_args with a subset of the
+    \* arguments would ask for) is not an authorisation of this exact call
+    \cup {[name |-> "Transfer", from |-> "alice", to |-> "bob", amt |-> 1, auth |-> {}, scopedAuth |-> {"alice"}, keepArgs |-> ks] : ks \in ProperKeeps(3)}
+    \cup {[name |-> "Approve", from |-> "alice", spender |-> "bob", amt |-> 1, exp |-> s.seq + 5, auth |-> {}, scopedAuth |-> {"alice"}, keepArgs |-> ks] : ks \in ProperKeeps(4)}
+    \cup {[name |-> "Burn", from |-> "alice", amt |-> 1, auth |-> {}, scopedAuth |-> {"alice"}, keepArgs |-> ks] : ks \in ProperKeeps(2)}
+    \cup {[name |-> "TransferFrom", spender |-> "bob", from |-> "alice", to |-> "carol", amt |-> 1, auth |-> {}, scopedAuth |-> {"bob"}, keepArgs |-> ks] : ks \in ProperKeeps(4)}
+    \cup {[name |-> "MintFrom", minter |-> "bob", to |-> "carol", amt |-> 1, auth |-> {}, scopedAuth |-> {"bob"}, keepArgs |-> ks] : ks \in ProperKeeps(3)}
+    \* a negative amount turns a credit into a debit of the account that was to be credited - which authorised nothing
+    \cup {[name |-> "MintFrom", minter |-> "bob", to |-> "alice", amt |-> -1, auth |-> {"bob"}],
+          [name |-> "Mint", to |-> "alice", amt |-> -1, auth |-> {s.owner}],
+          [name |-> "Transfer", from |-> "bob", to |-> "alice", amt |-> -1, auth |-> {"bob"}],
+          [name |-> "TransferFrom", spender |-> "bob", from |-> "carol", to |-> "alice", amt |-> -1, auth |-> {"bob"}]}
     \* aliased parties: the spender is the debited account itself, or the recipient
     \cup {[name |-> "TransferFrom", spender |-> "alice", from |-> "alice", to |-> "bob", amt |-> m, auth |-> au] : m \in {0, 1}, au \in {{}, {"alice"}, {"bob"}}}
     \cup {[name |-> "BurnFrom", spender |-> "alice", from |-> "alice", amt |-> m, auth |-> au] : m \in {0, 1}, au \in {{}, {"alice"}}}
